@@ -145,8 +145,12 @@ def power_law(ctx):
         ctx.oracle('C13.d amplitude scales linearly with the record', bool(np.allclose(am2, alpha * am, rtol=1e-9, atol=1e-12 * peak)), inputs,
                    detail={'alpha': alpha})
         ns2 = im.calc_n_cyc_array_w_power_law(alpha * v, alpha * a_ref, b, cut_off=cut).reshape(-1)
+        # peaks below the cut-off are replaced by the ABSOLUTE constant 1e-14, which does not scale with the record: their (negligible)
+        # contribution 0.5*(1e-14/a_ref)^(1/b) per peak changes by the factor alpha^(-1/b); allow exactly that much
+        npk = max(1, len(__import__('eqsig').fns.peaks_and_crossings.get_switched_peak_array_indices(v)))
+        repl = 0.0 if cut == 0 else npk * 0.5 * max(1.0, alpha ** (-1 / b)) * (1e-14 / a_ref) ** (1 / b)
         ctx.oracle('C13.d cycles invariant when record and reference amplitude scale together',
-                   bool(np.allclose(ns2, ns, rtol=1e-8, atol=1e-12)), inputs, detail={'alpha': alpha})
+                   bool(np.allclose(ns2, ns, rtol=1e-8, atol=2 * repl + 1e-9 * float(ns.max()) + 1e-300)), inputs, detail={'alpha': alpha})
         comb = im.calc_cyc_amp_combined_arrays_w_power_law(v, v, n_cyc, b)
         gm = im.calc_cyc_amp_gm_arrays_w_power_law(v, v, n_cyc, b)
         ctx.oracle('C13.d two identical components: combined == 2^b * single', bool(np.allclose(comb, 2 ** b * am, rtol=1e-9, atol=1e-300)), inputs)
